@@ -235,7 +235,7 @@ func cmdCheck(args []string) {
 			}
 		}
 	}
-	if len(retry) > 40 && len(retry) <= 160 {
+	if len(retry) > 40 && len(retry) <= 3000 {
 		// many undecided obligations at once is the signature of a loaded machine rather than of a
 		// change to the code: a first retry round with a moderate limit brings the number down
 		saved := solverTimeout
